@@ -367,27 +367,64 @@ def gatherGroups (hmac256 : Bytes → Bytes → Bytes) (shares : List Share) : L
       | some e, some l => some (e :: l)
       | _, _ => none
 
-/-- ShareSet.recover (the share list has passed `ShareSet.new`) -/
+/-- the body of ShareSet.recover: `id`, `exponent`, `groupThreshold`, `groupCount` are the attributes the object
+    copied from `shares[0]` in `__init__`; `shares` is the CURRENT `self.shares` -/
+def recoverWith (hmac256 : Bytes → Bytes → Bytes) (kdf : Bytes → Bytes → Nat → Nat → Bytes)
+    (id exponent groupThreshold groupCount : Nat) (shares : List Share) (passphrase : Bytes) : Option Bytes :=
+  -- `groups[share.group_index].append(share)`: IndexError when group_index ≥ group_count
+  if shares.any (fun s => s.groupIndex ≥ groupCount) then none
+  else
+    match gatherGroups hmac256 shares (List.range groupCount) with
+    | none => none
+    | some shareData =>
+      if groupThreshold == 1 then
+        match shareData with
+        | [] => none
+        | e :: _ => decrypt kdf e.2 id exponent passphrase
+      else if groupThreshold > shareData.length then none
+      else
+        match recoverSecret hmac256 shareData with
+        | none => none
+        | some sharedSecret => decrypt kdf sharedSecret id exponent passphrase
+
+/-- ShareSet.recover on a freshly constructed object (the share list has passed `ShareSet.new`) -/
 def ShareSet.recover (hmac256 : Bytes → Bytes → Bytes) (kdf : Bytes → Bytes → Nat → Nat → Bytes)
     (shares : List Share) (passphrase : Bytes) : Option Bytes :=
   match shares with
   | [] => none
-  | s0 :: _ =>
-    -- `groups[share.group_index].append(share)`: IndexError when group_index ≥ group_count
-    if shares.any (fun s => s.groupIndex ≥ s0.groupCount) then none
-    else
-      match gatherGroups hmac256 shares (List.range s0.groupCount) with
-      | none => none
-      | some shareData =>
-        if s0.groupThreshold == 1 then
-          match shareData with
-          | [] => none
-          | e :: _ => decrypt kdf e.2 s0.id s0.exponent passphrase
-        else if s0.groupThreshold > shareData.length then none
-        else
-          match recoverSecret hmac256 shareData with
-          | none => none
-          | some sharedSecret => decrypt kdf sharedSecret s0.id s0.exponent passphrase
+  | s0 :: _ => recoverWith hmac256 kdf s0.id s0.exponent s0.groupThreshold s0.groupCount shares passphrase
+
+/-- a `ShareSet` object: the attributes fixed by `__init__` and the (mutable) `shares` list -/
+structure ShareSetObj where
+  shares : List Share
+  id : Nat
+  exponent : Nat
+  groupThreshold : Nat
+  groupCount : Nat
+  shareBitLength : Nat
+
+/-- `ShareSet(shares)` as an object -/
+def ShareSetObj.new (shares : List Share) : Option ShareSetObj :=
+  match ShareSet.new shares with
+  | none => none
+  | some ss =>
+    match ss with
+    | [] => none
+    | s0 :: _ => some ⟨ss, s0.id, s0.exponent, s0.groupThreshold, s0.groupCount, s0.shareBitLength⟩
+
+/-- one call on / mutation of a `ShareSet` object -/
+inductive SsOp where
+  | recover (passphrase : Bytes)
+  | setShares (shares : List Share)        -- `obj.shares = [...]` (no re-validation, attributes unchanged)
+deriving Repr
+
+/-- a history on ONE object: the answers of the `recover` calls (`none` = raised) -/
+def ShareSetObj.run (hmac256 : Bytes → Bytes → Bytes) (kdf : Bytes → Bytes → Nat → Nat → Bytes) :
+    ShareSetObj → List SsOp → List (Option Bytes)
+  | _, [] => []
+  | o, .recover p :: r =>
+    recoverWith hmac256 kdf o.id o.exponent o.groupThreshold o.groupCount o.shares p :: ShareSetObj.run hmac256 kdf o r
+  | o, .setShares l :: r => ShareSetObj.run hmac256 kdf { o with shares := l } r
 
 /-- the Share objects built by `generate_shares` from the split data -/
 def mkShares (numBits id exponent k n : Nat) : ShareData → Option (List Share)
